@@ -352,8 +352,9 @@ def genPicker (seed n : Nat) (rootsFile : String) : IO Unit := do
         (r, m.text)
       else if sel == 5 then
         let (r, a) := r.below 64
-        let (r, b) := r.below 64
-        let m : Move := ⟨⟨a % 64, Nat.mod_lt _ (by decide)⟩, ⟨(b + 1 + a) % 64, Nat.mod_lt _ (by decide)⟩, .quiet⟩
+        let (r, b) := r.below 63
+        -- source and destination differ: the engine's move word has no encoding for a1a1 (all bits zero)
+        let m : Move := ⟨⟨a % 64, Nat.mod_lt _ (by decide)⟩, ⟨(b % 63 + 1 + a) % 64, Nat.mod_lt _ (by decide)⟩, .quiet⟩
         (r, m.text)
       else (r, "-")
     let (r3, hashSel) := r.below 3
